@@ -6,6 +6,7 @@ package main
 import (
 	"errors"
 	"fmt"
+	"io"
 	"math/rand/v2"
 	"runtime"
 	"strings"
@@ -223,7 +224,7 @@ func chkCase(seed uint64, idx int) *CaseSpec {
 					case 1:
 						return ge{ni, "v6", chkV6[r.IntN(2)]}
 					case 2:
-						return ge{ni, "mpls", fmt.Sprint(100 * (1 + r.IntN(2)))}
+						return ge{ni, "mpls", fmt.Sprint(100 * r.IntN(3))}
 					case 3:
 						return ge{ni, "nhg", fmt.Sprint(r.IntN(3))}
 					default:
@@ -241,6 +242,13 @@ func chkCase(seed uint64, idx int) *CaseSpec {
 						e.Entry = &spb.AFTEntry_Ipv6{Ipv6: &aftpb.Afts_Ipv6EntryKey{Prefix: g.key, Ipv6Entry: &aftpb.Afts_Ipv6Entry{}}}
 					case "mpls":
 						e.Entry = &spb.AFTEntry_Mpls{Mpls: &aftpb.Afts_LabelEntryKey{Label: &aftpb.Afts_LabelEntryKey_LabelUint64{LabelUint64: n}, LabelEntry: &aftpb.Afts_LabelEntry{}}}
+					case "mplsx":
+						// a label entry that is not keyed by a number: an enumerated label, or no key at all
+						if n == 0 {
+							e.Entry = &spb.AFTEntry_Mpls{Mpls: &aftpb.Afts_LabelEntryKey{LabelEntry: &aftpb.Afts_LabelEntry{}}}
+						} else {
+							e.Entry = &spb.AFTEntry_Mpls{Mpls: &aftpb.Afts_LabelEntryKey{Label: &aftpb.Afts_LabelEntryKey_LabelOpenconfigmplstypesmplslabelenum{LabelOpenconfigmplstypesmplslabelenum: 2}, LabelEntry: &aftpb.Afts_LabelEntry{}}}
+						}
 					case "nhg":
 						e.Entry = &spb.AFTEntry_NextHopGroup{NextHopGroup: &aftpb.Afts_NextHopGroupKey{Id: n, NextHopGroup: &aftpb.Afts_NextHopGroup{}}}
 					case "nh":
@@ -266,12 +274,20 @@ func chkCase(seed uint64, idx int) *CaseSpec {
 				}
 				ents := []ge{}
 				for i := r.IntN(6); i > 0; i-- {
+					if r.IntN(8) == 0 {
+						ents = append(ents, ge{[]string{"DEFAULT", "VRF1"}[r.IntN(2)], "mplsx", fmt.Sprint(r.IntN(2))})
+						continue
+					}
 					ents = append(ents, mk())
 				}
 				wants := []ge{}
 				for i := 1 + r.IntN(3); i > 0; i-- {
 					if len(ents) > 0 && r.IntN(2) == 0 {
-						wants = append(wants, ents[r.IntN(len(ents))])
+						w := ents[r.IntN(len(ents))]
+						if w.kind == "mplsx" {
+							w = ge{w.ni, "mpls", "0"}
+						}
+						wants = append(wants, w)
 					} else {
 						wants = append(wants, mk())
 					}
@@ -324,9 +340,9 @@ func chkCase(seed uint64, idx int) *CaseSpec {
 				})
 				t.Add("chk.%s %s %d => %s %s", which, enc, count, B(pass), S(pan))
 			default: // HasRecvClientErrorWithStatus
-				cs := []codes.Code{codes.FailedPrecondition, codes.Unimplemented, codes.InvalidArgument}
+				cs := []codes.Code{codes.FailedPrecondition, codes.Unimplemented, codes.InvalidArgument, codes.Unknown}
 				mkSt := func() *status.Status {
-					st := status.New(cs[r.IntN(3)], []string{"", "msg-a", "msg-b"}[r.IntN(3)])
+					st := status.New(cs[r.IntN(4)], []string{"", "msg-a", "msg-b", "plain", "EOF"}[r.IntN(5)])
 					if r.IntN(2) == 0 {
 						st2, e := st.WithDetails(&spb.ModifyRPCErrorDetails{Reason: spb.ModifyRPCErrorDetails_Reason(1 + r.IntN(2))})
 						if e == nil {
@@ -358,7 +374,12 @@ func chkCase(seed uint64, idx int) *CaseSpec {
 					for i := r.IntN(4); i > 0; i-- {
 						switch r.IntN(4) {
 						case 0:
-							ce.Recv = append(ce.Recv, errors.New("plain"))
+							// an error that carries no gRPC status
+							if r.IntN(2) == 0 {
+								ce.Recv = append(ce.Recv, errors.New("plain"))
+							} else {
+								ce.Recv = append(ce.Recv, io.EOF)
+							}
 							recv = append(recv, "-")
 						case 1:
 							ce.Recv = append(ce.Recv, want.Err())
